@@ -25,21 +25,25 @@ def main():
                 ss = coal.block_counting_state_space
                 r['dump'] = space_dump(ss, coal, [])
                 configs = []
-                for m in range(case['max_mut'] + 1):
-                    configs += [list(c) for c in coal.sfs._get_configs(n, m)]
+                if case.get('configs'):
+                    configs = [list(c) for c in case['configs']]
+                else:
+                    for m in range(case['max_mut'] + 1):
+                        configs += [list(c) for c in coal.sfs._get_configs(n, m)]
+                r['perms'] = [sorted(list(map(int, p)) for p in pg.utils.multiset_permutations(items)) for items in case.get('perm_items', [])]
                 r['configs'] = configs
                 r['probs'] = [float(coal.sfs.get_mutation_config(c, theta)) for c in configs]
                 # iterator bookkeeping
                 it = coal.sfs.get_mutation_configs(theta)
                 gm, seq = [], []
-                for _ in range(len(configs)):
+                for _ in range(0 if case.get('configs') else len(configs)):
                     c, p = next(it)
                     seq.append([list(map(int, c)), float(p)])
                     gm.append(float(coal.sfs.generated_mass))
                 r['iter'] = seq
                 r['generated_mass'] = gm
                 fconfigs = []
-                for m in range(min(case['max_mut'], 4) + 1):
+                for m in range((min(case['max_mut'], 4) + 1) if not case.get('configs') else 0):
                     fconfigs += [list(c) for c in coal.fsfs._get_configs(n, m)]
                 r['fconfigs'] = fconfigs
                 r['fprobs'] = [float(coal.fsfs.get_mutation_config(c, theta)) for c in fconfigs]
